@@ -249,7 +249,7 @@ fn depth_case(case: &mut Case) {
 
 // -- 5. timeout expiry (worker subprocess) -----------------------------------------------------
 
-/// Effectively unbounded binary tree over wrapping u64.
+/// Effectively unbounded binary tree (2^40 states, depth 40) or chain (2^64 states) over u64.
 #[derive(Clone)]
 pub struct TreeModel {
     pub spin_us: u64,
@@ -271,12 +271,23 @@ impl Model for TreeModel {
             self.late.fetch_add(1, Ordering::Relaxed);
         }
         spin(self.spin_us);
+        if !self.chain && *_s >= (1u64 << 40) - 1 {
+            // 2^40 states are "effectively unbounded" for a 1 s timeout, and a depth of at most
+            // 40 keeps depth-first blocks cheap (DFS clones the path per successor, so an
+            // unboundedly deep tree makes every block quadratic and `join` late under load)
+            return;
+        }
         actions.push(0);
         if !self.chain {
             actions.push(1);
         }
     }
     fn next_state(&self, s: &u64, a: u8) -> Option<u64> {
+        if self.chain {
+            // one new successor per state, 2^64 states long (2s+1 would reach the fixed point
+            // u64::MAX after 64 steps and end the run by exhaustion long before the timeout)
+            return Some(s.wrapping_add(1));
+        }
         Some(s.wrapping_mul(2).wrapping_add(1 + a as u64))
     }
     fn properties(&self) -> Vec<Property<Self>> {
@@ -353,8 +364,12 @@ fn timeout_expiry(ctx: &Ctx) {
         }
     }
     // a chain-shaped model: the frontier never holds more than one state
+    scenarios.push(("bfs".into(), 1, 30, 0, true));
     scenarios.push(("bfs".into(), 2, 30, 0, true));
     scenarios.push(("dfs".into(), 1, 30, 0, true));
+    scenarios.push(("dfs".into(), 3, 30, 0, true));
+    scenarios.push(("on_demand".into(), 1, 30, 0, true));
+    scenarios.push(("on_demand".into(), 2, 30, 0, true));
     if !ctx.quick() {
         for s in ["bfs", "dfs", "on_demand"] {
             scenarios.push((s.to_string(), 8, 20, 0, false));
@@ -377,6 +392,13 @@ fn timeout_expiry(ctx: &Ctx) {
             case.inconclusive(&format!("worker produced no result (killed={} code={:?})", out.killed, out.exit_code));
             return;
         };
+        // the scenario only says something if the run outlived its timeout: a model that is
+        // exhausted earlier (harness defect) must not count as an observation
+        if v["joined"].as_bool() == Some(true) && v["joined_at_s"].as_f64().unwrap_or(f64::MAX) < timeout_ms as f64 / 1000.0 * 0.9 {
+            case.inconclusive(&format!("{} t={}: the run ended {:.2}s after start, before its timeout - model exhausted (harness defect)",
+                strategy, threads, v["joined_at_s"].as_f64().unwrap_or(0.0)));
+            return;
+        }
         case.add("timeout_scenarios_observed", 1);
         case.add("evaluations_observed", v["total_evaluations"].as_u64().unwrap_or(0));
         let late = v["late_evaluations"].as_u64().unwrap_or(0);
